@@ -359,7 +359,7 @@ ApplyLST(v, ctx, cat) ==
 RECURSIVE DecodeTop(_, _, _, _, _, _)
 DecodeTop(bs, p, ctx, cat, forest, stats) ==
   IF p > Len(bs) THEN [ok |-> TRUE, forest |-> forest, ctx |-> ctx,
-                       tables |-> stats.tables, bvms |-> stats.bvms, nops |-> stats.nops]
+                       tables |-> stats.tables, bvms |-> stats.bvms, nops |-> stats.nops, lsts |-> stats.lsts]
   ELSE
   LET r == DecodeAt(bs, p, Len(bs), ctx)
   IN IF ~r.ok THEN [ok |-> FALSE, why |-> r.why, at |-> r.at, top |-> p]     \* top: where the failing top-level value starts
@@ -369,7 +369,7 @@ DecodeTop(bs, p, ctx, cat, forest, stats) ==
      ELSE IF IsLST(r.v)
           THEN LET a == ApplyLST(r.v, ctx, cat)
                IN IF ~a.ok THEN [ok |-> FALSE, why |-> a.why, at |-> p, top |-> p]
-                  ELSE DecodeTop(bs, r.next, a.ctx, cat, forest, [stats EXCEPT !.tables = @ + 1])
+                  ELSE DecodeTop(bs, r.next, a.ctx, cat, forest, [stats EXCEPT !.tables = @ + 1, !.lsts = Append(@, r.v)])
      ELSE DecodeTop(bs, r.next, ctx, cat, Append(forest, r.v), stats)
 
 BVM == <<224, 1, 0, 234>>
@@ -377,7 +377,7 @@ BVM == <<224, 1, 0, 234>>
 BinDecode(bs, cat) ==
   IF Len(bs) < 4 \/ SubSeq(bs, 1, 4) # BVM
   THEN [ok |-> FALSE, why |-> "stream does not start with the version marker E0 01 00 EA", at |-> 1, top |-> 1]
-  ELSE DecodeTop(bs, 1, SystemSlots, cat, <<>>, [tables |-> 0, bvms |-> 0, nops |-> 0])
+  ELSE DecodeTop(bs, 1, SystemSlots, cat, <<>>, [tables |-> 0, bvms |-> 0, nops |-> 0, lsts |-> <<>>])
 
 \* Does the top-level value starting at p look like a local symbol table (annotation wrapper whose
 \* first annotation is $ion_symbol_table = SID 3)?  Used to tell where a malformation sits.
